@@ -21,6 +21,7 @@ type GenOpts struct {
 	AddRemove bool     // C17: v1 AddInput / RemoveInput ops
 	NoZero    bool     // exclude configurations in which a configured priority has a zero strategic share (v1 finding F4)
 	Sparse    bool     // C06: sparse arrivals, minimal H, single active priority
+	LongHold  bool     // v2: the consumer may sit on the last items for seconds to an hour before releasing them
 	Many      bool     // occasionally a script with more than 64 inputs (Fair, simple ops)
 	Thorough  bool
 }
@@ -197,6 +198,9 @@ func Gen(o GenOpts) *rapid.Generator[Script] {
 			s.FbCap = pick(t, "fbcap", 0, 0, 1, 2, 4, 16, 100)
 		}
 
+		if o.LongHold && s.Ver == 2 {
+			s.EpiHold = pick(t, "epihold", int64(0), 0, 0, 1000000, 5000000001, 61000000000, 3600000000000)
+		}
 		// ops
 		maxOps := 24
 		if o.Thorough {
@@ -333,6 +337,10 @@ func Gen(o GenOpts) *rapid.Generator[Script] {
 				switch {
 				case o.AddRemove && s.Ver == 1 && !s.Simple && rapid.IntRange(0, 4).Draw(t, "axg") == 0:
 					s.Ops = append(s.Ops, Op{K: "G"}) // GracefulStop early or in the middle, also in add/remove scripts
+				case o.AddRemove && s.Ver == 1 && !s.Simple && rapid.IntRange(0, 3).Draw(t, "xa") == 0:
+					// the same priority removed and added again at once (whatever of it is in flight stays in flight)
+					p := curP("xap")
+					s.Ops = append(s.Ops, Op{K: "X", P: p}, Op{K: "A", P: p, N: pick(t, "xacap", 0, 1, 2, 8), M: pick(t, "xapre", 0, 1, 3, h)})
 				case o.AddRemove && s.Ver == 1 && !s.Simple:
 					if rapid.Bool().Draw(t, "ax") {
 						s.Ops = append(s.Ops, Op{K: "A", P: anyP("ap"), N: pick(t, "acap", 0, 1, 2, 8), M: pick(t, "apre", 0, 1, 3, h)})
